@@ -565,7 +565,7 @@ impl NetworkBehaviour for Behaviour {
                         .get(&event_source)
                         .map(|cs| cs.values().filter(|status| status.is_active()).count())
                         .unwrap_or(0)
-                        > self.config.max_reservations_per_peer)
+                        >= self.config.max_reservations_per_peer)
                     // Deny if it exceeds `max_reservations`.
                     || self
                         .connections
@@ -692,7 +692,9 @@ impl NetworkBehaviour for Behaviour {
                 );
 
                 let action = if self.circuits.num_circuits_of_peer(event_source)
-                    > self.config.max_circuits_per_peer
+                    >= self.config.max_circuits_per_peer
+                    || self.circuits.num_circuits_of_peer(inbound_circuit_req.dst())
+                        >= self.config.max_circuits_per_peer
                     || self.circuits.len() >= self.config.max_circuits
                     || !self
                         .config
